@@ -93,6 +93,15 @@ class Translator:
                 if f.body is not None:
                     self.preprocess(f)
                 self.fns[f.name] = FnInfo(f, wanted[f.name] if isinstance(wanted, dict) else f.name)
+                continue
+            # `name@owner`: a second function of the same Rust name, told apart by its `impl` header
+            for key in wanted:
+                if "@" in key and key not in self.fns:
+                    nm, own = key.split("@", 1)
+                    if f.name == nm and own in f.owner.replace(" ", ""):
+                        if f.body is not None:
+                            self.preprocess(f)
+                        self.fns[key] = FnInfo(f, wanted[key])
         self.missing = [w for w in wanted if w not in self.fns]
         self.errors = {}
         FN_NAMES.clear()
@@ -1219,7 +1228,9 @@ class TreeProfile(Translator):
                 self.em.w(f"m := wr m {self.atom(idx)} fun r => {self.fns['initialize'].lean_name} r {a}")
                 return True
             if self.is_alloc(e.recv):
-                raise Untranslatable("allocator initialize (covered by the extracted init vector)")
+                a = " ".join(self.atom(self.ex(x, hoist=True)) for x in e.args)
+                self.em.w(f"m := alloc_initialize m {a}")
+                return True
         return False
 
     def profile_assign(self, s):
@@ -1234,7 +1245,7 @@ class TreeProfile(Translator):
 
     # Node::initialize is a record -> record function
     def translate_fn(self, fi):
-        if fi.fn.name == "initialize":
+        if fi.fn.name == "initialize" and fi.lean_name == "node_initialize":
             return self.translate_node_initialize(fi)
         return super().translate_fn(fi)
 
@@ -1464,6 +1475,10 @@ class HashSetProfile(TreeProfile):
             v = self.ex(e.args[1], hoist=True)
             self.em.w(f"m := {{ m with hdr := {{ m.hdr with {f} := {v} }} }}")
             return True
+        if e.name == "initialize" and self.is_alloc(e.recv):
+            a = " ".join(self.atom(self.ex(x, hoist=True)) for x in e.args)
+            self.em.w(f"m := alloc_initialize m {a}")
+            return True
         if e.name == "set_register":
             r = self.record_of(e.recv, True)
             if r is not None:
@@ -1484,7 +1499,8 @@ class HashSetProfile(TreeProfile):
         return False
 
 
-HSET_FUNCS = {n: n for n in ["capacity", "size", "is_full", "is_empty", "contains", "add_node", "remove_node", "insert", "remove", "next"]}
+HSET_FUNCS = {"initialize@HashSetMut<": "initialize_set"}
+HSET_FUNCS.update({n: n for n in ["capacity", "size", "is_full", "is_empty", "contains", "add_node", "remove_node", "insert", "remove", "next"]})
 
 HSET_HEADER = '''/-
   GENERATED by tools/rust2lean.py from {path} — do not edit.
@@ -1516,6 +1532,12 @@ def gen_hset(rel, ns, outname):
         report["translated"] = [n for n in tr.fns if n not in tr.errors]
         report["untranslatable"] = tr.errors
         report["missing"] = tr.missing
+        d_, err_ = alloc_initialize(src, r"impl\s+Allocator", HashSetProfile.FIELDS, ["size", "cap", "flh", "seq"], "HImage β")
+        if d_:
+            body = d_ + "\n\n" + body
+            report["translated"].append("alloc_initialize")
+        else:
+            report["untranslatable"]["alloc_initialize"] = err_
     except (OSError, ParseError) as ex:
         body = ""
         report["untranslatable"]["<file>"] = str(ex)
@@ -2257,7 +2279,61 @@ def gen_pod():
     return report
 
 
-TREE_FUNCS = {"initialize": "node_initialize"}
+def alloc_initialize(src, alloc_owner_re, field_names, lean_hdr_fields, state_ty, hdr_ctor_extra=""):
+    """`Allocator::initialize(&mut self, capacity)`: `self.fields = [ .. ]` — entry i of the literal is the i-th variant of
+    `enum Field` (declaration order); further entries are padding and must be 0. Returns (lean def text | None, error)."""
+    m = re.search(r"enum\s+Field\s*\{([^}]*)\}", rustparse_strip(src))
+    if not m:
+        return None, "enum Field not found"
+    variants = [v.strip() for v in m.group(1).split(",") if v.strip()]
+    if [v for v in variants if v not in field_names]:
+        return None, f"unexpected Field variants {variants}"
+    for f in scan_functions(src):
+        if f.name == "initialize" and re.search(alloc_owner_re, f.owner) and f.body is not None:
+            st = f.body.stmts
+            tail = f.body.tail
+            node = None
+            if len(st) == 1 and tail is None and st[0].kind == "assign":
+                node = st[0]
+            elif not st and tail is not None and tail.kind == "assign":
+                node = tail
+            if node is None or node.op != "=" or node.lhs.kind != "field" or node.lhs.name != "fields" or node.rhs.kind != "array":
+                return None, "Allocator::initialize: expected `self.fields = [..]`"
+            items = node.rhs.items
+            if len(items) < len(variants):
+                return None, "Allocator::initialize: literal shorter than enum Field"
+
+            def lit(e):
+                if e.kind == "num":
+                    return str(int(e.val, 0))
+                if e.kind == "path" and e.path == ["SENTINEL"]:
+                    return "0"
+                if e.kind == "path" and len(e.path) == 1 and e.path[0] == f.params[0][0]:
+                    return e.path[0]
+                raise Untranslatable("Allocator::initialize: unexpected entry")
+            try:
+                vals = [lit(e) for e in items]
+            except Untranslatable as ex:
+                return None, str(ex)
+            if any(v != "0" for v in vals[len(variants):]):
+                return None, "Allocator::initialize: non-zero padding"
+            assign = ", ".join(f"{field_names[v]} := {vals[i]}" for i, v in enumerate(variants))
+            missing = [h for h in lean_hdr_fields if h not in [field_names[v] for v in variants]]
+            assign += "".join(f", {h} := 0" for h in missing)
+            pn = f.params[0][0]
+            return (f"/-- `Allocator::initialize` (line {f.src_line}): header words in the declaration order of `enum Field`. -/\n"
+                    f"def alloc_initialize (m0 : {state_ty}) ({pn} : Nat) : {state_ty} :=\n  {{ m0 with hdr := {{ {assign} }} }}"), None
+    return None, "Allocator::initialize not found"
+
+
+def rustparse_strip(src):
+    i = src.find("#[cfg(test)]")
+    src = src if i < 0 else src[:i]
+    src = re.sub(r"//[^\n]*", "", src)
+    return src
+
+
+TREE_FUNCS = {"initialize": "node_initialize", "initialize@TreeMut<": "initialize_tree"}
 TREE_FUNCS.update({n: n for n in ["capacity", "len", "is_full", "is_empty", "find", "get", "lowest", "contains", "update_height",
               "update_child", "balance_factor", "left_rotate", "right_rotate", "rebalance", "add", "remove_node",
               "insert", "remove", "get_mut", "from_bytes_mut"]})
@@ -2322,6 +2398,12 @@ def gen_tree(rel, ns, bits, outname):
         report["translated"] = [n for n in tr.fns if n not in tr.errors]
         report["untranslatable"] = tr.errors
         report["missing"] = tr.missing
+        d_, err_ = alloc_initialize(src, r"impl\s+(U8)?Allocator", TreeProfile.FIELDS, ["root", "size", "cap", "flh", "seq", "pad"], "TreeImage α β")
+        if d_:
+            body = d_ + "\n\n" + body
+            report["translated"].append("alloc_initialize")
+        else:
+            report["untranslatable"]["alloc_initialize"] = err_
         if not tr.height_ok:
             report["untranslatable"]["<Register::Height used as a branch value>"] = "Bool encoding of branches unsound"
     except (OSError, ParseError) as ex:
